@@ -45,6 +45,8 @@ THEOREMS = [
     "Opacus.C09.ebs_is_floor_partial",
     "Opacus.C09.ebs_counterexample",
     "Opacus.C09.grid_inclusion_probability",
+    # the tie to the source: Generated/SamplerArith.lean is re-translated from utils/uniform_sampler.py on every run
+    "Opacus.C09.generated_num_samples_eq_model",
 ]
 RULE = (
     "sampler case = (N, sample rate or (batch size -> L), seed, epochs, mode in {sampler, loader-sampler, loader}) drawn from VERIF_SEED; "
@@ -319,7 +321,14 @@ def report(ctx, res, case):
     return res
 
 
+def regenerate(ctx):
+    from .. import regen
+    from . import c09_trans as T
+    regen.regenerate(ctx, T, "Opacus.Generated.Sampler", "utils/uniform_sampler.py")
+
+
 def run(ctx):
+    regenerate(ctx)
     rng = ctx.rng
     v, wit = detect_variants(ctx)
 
